@@ -733,7 +733,10 @@ fn build_corpus(world: &World, rng: &mut Rng, fast: bool) -> Result<Corpus, Stri
         .writer_with_num_threads(1, 15_000_000)
         .map_err(|e| format!("writer: {e}"))?;
     let ndocs = *rng.pick(&[1usize, 2, 5, 12, 25, 40]);
-    let docs: Vec<MDoc> = (0..ndocs).map(|i| world.gen_doc(i as u64, rng)).collect();
+    let mut docs: Vec<MDoc> = (0..ndocs).map(|i| world.gen_doc(i as u64, rng)).collect();
+    docs.extend(world.subset_docs(ndocs as u64));
+    rng.shuffle(&mut docs);
+    let ndocs = docs.len();
     let cut = if ndocs >= 2 && rng.chance(1, 2) { Some(rng.urange(1, ndocs - 1)) } else { None };
     let mut segments = 1;
     for (i, d) in docs.iter().enumerate() {
